@@ -266,6 +266,18 @@ impl FileReader for IOFileReader {
                 .to_owned()
         };
 
+        // A file that has already been read is being included again (by
+        // itself, by a file it includes, or twice): reading it again would
+        // never end for a cycle.
+        let canonical = |p: &str| std::fs::canonicalize(p).unwrap_or_else(|_| PathBuf::from(p));
+        if self
+            .files
+            .values()
+            .any(|(read, _)| canonical(read) == canonical(&path))
+        {
+            return Err(FileReaderError::FileAlreadyRead(path));
+        }
+
         // open file and read it
         let file = match std::fs::read_to_string(path.clone()) {
             Ok(file) => file,
